@@ -41,17 +41,17 @@ type iterIn struct {
 }
 
 type sLeaser struct {
-	mu      sync.Mutex
-	in      iterIn
-	calls   []int // 1 ClusterID 2 PrimaryInfo 3 Acquire 4 AcquireExisting
-	iter    int   // number of ClusterID calls so far
-	testAt  int   // the iteration under test (1-based)
-	infoN   int   // PrimaryInfo calls within the iteration under test
-	lease   *sLease
-	url     string
-	setCIDs []string
+	mu          sync.Mutex
+	in          iterIn
+	calls       []int // 1 ClusterID 2 PrimaryInfo 3 Acquire 4 AcquireExisting
+	iter        int   // number of ClusterID calls so far
+	testAt      int   // the iteration under test (1-based)
+	infoN       int   // PrimaryInfo calls within the iteration under test
+	lease       *sLease
+	url         string
+	setCIDs     []string
 	postAcquire int
-	warmup  func(call string) (handled bool, info litefs.PrimaryInfo, err error) // iterations before the one under test
+	warmup      func(call string) (handled bool, info litefs.PrimaryInfo, err error) // iterations before the one under test
 }
 
 func (l *sLeaser) Close() error         { return nil }
@@ -385,14 +385,52 @@ func judgeIteration(c *common.Ctx, cf *common.CaseFile, res iterResult) {
 		common.CoqBool(in.Candidate), common.CoqBool(in.LocalCID), cid, ho, inf[in.Info1], acq, inf[in.Info2], common.CoqNList(obs)), rep)
 }
 
+// foreignStream: the lease service names a primary and carries no cluster id of its own, but the primary's
+// stream announces another cluster's id: a node that has a cluster id must refuse to follow it.
+func foreignStream(c *common.Ctx, root string) {
+	dir := filepath.Join(root, "foreign-stream")
+	_ = os.MkdirAll(dir, 0o755)
+	defer os.RemoveAll(dir)
+	_ = os.WriteFile(filepath.Join(dir, "clusterid"), []byte(cidA+"\n"), 0o644)
+	l := &sLeaser{in: iterIn{Candidate: false, LocalCID: true, CID: "empty", Handoff: "none", Info1: "present", Acquire: "err", Info2: "absent"}, testAt: 1, url: "http://self.invalid:1"}
+	cl := &sClient{clusterID: cidB, frames: func() []byte {
+		var b bytes.Buffer
+		_ = litefs.WriteStreamFrame(&b, &litefs.ReadyStreamFrame{})
+		return b.Bytes()
+	}}
+	s := litefs.NewStore(dir, false)
+	s.Leaser, s.Client = l, cl
+	s.ReconnectDelay = 5 * time.Millisecond
+	s.RetentionMonitorInterval = 0
+	s.Exit = func(int) {}
+	if err := s.Open(); err != nil {
+		return
+	}
+	ready := false
+	select {
+	case <-s.ReadyCh():
+		ready = true
+	case <-time.After(300 * time.Millisecond):
+	}
+	got := s.ClusterID()
+	file, _ := os.ReadFile(filepath.Join(dir, "clusterid"))
+	_ = s.Close()
+	c.Evaluations++
+	c.Distinct("foreign-stream")
+	rep := map[string]any{"kind": "lease-foreign-stream"}
+	if ready || got != cidA || strings.TrimSpace(string(file)) != cidA {
+		c.Violate("C08:foreign-stream", fmt.Sprintf("a node of cluster %s followed a primary that announces cluster %s: ready=%v, cluster id now %q, clusterid file %q", cidA, cidB, ready, got, strings.TrimSpace(string(file))), rep)
+	}
+}
+
 // ---------- the primary's loop ----------
 type pScript struct {
 	Name    string   `json:"name"`
-	Renew   []string `json:"renew"`            // answers of successive Renew calls
-	At      int      `json:"at_ms,omitempty"`  // when the external event happens
-	Event   string   `json:"event,omitempty"`  // demote handoff-connected handoff-unconnected handoff-refused shutdown
-	Model   string   `json:"model"`            // the model's event list
-	WantEnd int      `json:"want_end_ms"`      // model: ms after the last successful renewal at which the role ends (0: not by renewal)
+	Renew   []string `json:"renew"`           // answers of successive Renew calls
+	At      int      `json:"at_ms,omitempty"` // when the external event happens
+	Event   string   `json:"event,omitempty"` // demote handoff-connected handoff-unconnected handoff-refused shutdown
+	Model   string   `json:"model"`           // the model's event list
+	WantEnd int      `json:"want_end_ms"`     // model: ms after the last successful renewal at which the role ends (0: not by renewal)
 }
 
 func runPrimary(c *common.Ctx, cf *common.CaseFile, sc pScript, root string, idx int, wg *sync.WaitGroup, mu *sync.Mutex) {
@@ -727,5 +765,11 @@ func Run(c *common.Ctx) error {
 			return err
 		}
 	}
+	foreignStream(c, root)
+	if err := consulScenarios(c, c.Rng.Fork()); err != nil {
+		return fmt.Errorf("consul: %w", err)
+	}
 	return nil
 }
+
+var bgc = context.Background()
